@@ -252,12 +252,16 @@ def oracle(case, out):
                 if off + cnt - 1 > 65535 and all(cell_of(b) is not None for b in data):
                     return "request kind %d offset %d count %d leaves the 16-bit address space" % (k, off, cnt)
             served = {}
+            # a 5-digit and a 6-digit address may name the same cell (40003 and 400003): such a cell is legitimately polled
+            # once per form; within one form no cell may be polled twice
+            forms = {(cell_of(a)[0], a >= 100000) for a in data if cell_of(a) is not None}
             for k, off, cnt in reqs:
                 ok = off + cnt <= 65536 and not any((k, off + i) in dev.bad for i in range(cnt))
                 for i in range(cnt):
-                    if (k, off + i) in served:
-                        return "cell %s polled twice in one turn" % ((k, off + i),)
-                    served[(k, off + i)] = ok
+                    served.setdefault((k, off + i), []).append(ok)
+            for cell, oks in served.items():
+                if len(oks) > len([f for f in forms if f[0] == cell[0]]):
+                    return "cell %s polled %d times in one turn" % (cell, len(oks))
             anyok = False
             for a, v in got:
                 cell = cell_of(a)
@@ -265,18 +269,23 @@ def oracle(case, out):
                     if v != data[a]:
                         return "invalid address %d changed value" % a
                     continue
-                # a 5-digit and a 6-digit address may name the same cell: both are served by its one request
                 if cell not in served:
                     # its range may have failed before reaching the device (merged with an invalid neighbour)
                     if v != data[a]:
                         return "address %d was not polled but changed from %s to %s" % (a, data[a], v)
                     continue
-                if served[cell]:
+                oks = served[cell]
+                if sum(1 for b in data if cell_of(b) == cell) > 1:
+                    oks = [True, False]         # named in both forms: which request was whose is not observable
+                if all(oks):
                     anyok = True
                     if v != dev.val(*cell):
                         return "address %d holds %s after a served poll, the device holds %s" % (a, v, dev.val(*cell))
-                elif v != data[a]:
-                    return "address %d changed from %s to %s although its poll failed" % (a, data[a], v)
+                elif not any(oks):
+                    if v != data[a]:
+                        return "address %d changed from %s to %s although its poll failed" % (a, data[a], v)
+                elif v not in (data[a], dev.val(*cell)):
+                    return "address %d holds %s: neither its old value nor the device's" % (a, v)
             # every valid known address whose whole neighbourhood is valid must have been polled
             for a, _v in got:
                 cell = cell_of(a)
@@ -285,7 +294,7 @@ def oracle(case, out):
             for a, v in got:
                 data[a] = v
             if data:
-                online = any(served.values()) if reqs else False
+                online = any(any(o) for o in served.values()) if reqs else False
                 if f["on"] != ("1" if online else "0") and all(cell_of(b) is not None for b in data):
                     return "online=%s after a turn in which %s request succeeded" % (f["on"], "a" if online else "no")
                 online = f["on"] == "1"
